@@ -46,7 +46,7 @@ def unstack(tree: Any, n: int) -> List[Any]:
 
 
 class WrapSys:
-    def __init__(self, adapter: Any, cfg: Dict[str, Any], flag: bool, scan_len: int):
+    def __init__(self, adapter: Any, cfg: Dict[str, Any], flag: bool, scan_len: int, wide: bool = False):
         import jax
         from jumanji.wrappers import AutoResetWrapper, VmapAutoResetWrapper, VmapWrapper
 
@@ -55,6 +55,11 @@ class WrapSys:
         env = adapter.build(cfg)
         self.env = env
         self.dtype = env.action_spec.dtype
+        # "wide" client: integer actions arrive as int32 (what argmax / categorical / randint produce) although the spec declares a
+        # narrower integer type; the unwrapped environment is given the very same arrays, so wrapper and reference stay comparable
+        self.wide = bool(wide) and np.issubdtype(np.dtype(self.dtype), np.integer) and np.dtype(self.dtype).itemsize < 4
+        if self.wide:
+            self.dtype = np.dtype(np.int32)
         self.mode = "C13"  # set by the task (C13 / C14): the property a raise of the unwrapped env is reported under
 
         def answered(fn: Any, what: str) -> Any:
@@ -580,7 +585,10 @@ def run_task(prop: Any, task: Dict[str, Any]) -> Dict[str, Any]:
     from jsim.core import construct
 
     task["flag"] = flag
-    ws = construct(WrapSys, adapter, cfg, flag, scan_len=task.get("scan_len", 3))
+    wide = bool((shard + util.crc("wide" + cfg["id"] + task["env"])) % 2)
+    task["wide"] = wide
+    ws = construct(WrapSys, adapter, cfg, flag, scan_len=task.get("scan_len", 3), wide=wide)
+
     ws.mode = mode
     stats = Stats()
     digests: List[int] = []
@@ -602,6 +610,8 @@ def run_task(prop: Any, task: Dict[str, Any]) -> Dict[str, Any]:
         resets_before = stats.probes.get("auto_resets", 0)
         steps_before = stats.steps
         try:
+            if ws.wide:
+                stats.probes["runs_with_int32_actions_for_a_narrower_spec"] = stats.probes.get("runs_with_int32_actions_for_a_narrower_spec", 0) + 1
             ops, run = generate_and_run(ws, mode, mode, rng, B, stats, nseg)
         except Violation as v:
             key = (v.monitor, v.cls)
@@ -624,7 +634,7 @@ def run_task(prop: Any, task: Dict[str, Any]) -> Dict[str, Any]:
                 except Violation as v3:
                     detail = v3.detail
                 violations.append({"property": mode, "env": task["env"], "config": cfg, "seed": task["seed"], "shard": shard, "run": i,
-                                   "monitor": v.monitor, "class": v.cls, "detail": detail, "B": B, "flag": flag, "scan_len": ws.k,
+                                   "monitor": v.monitor, "class": v.cls, "detail": detail, "B": B, "flag": flag, "wide": wide, "scan_len": ws.k,
                                    "ops": {"keys": ops["keys"], "segments": small}, "ops_unminimised": ops})
             stats.probe("runs_ending_in_violation")
             i += 1
@@ -668,7 +678,7 @@ def replay(prop: Any, v: Dict[str, Any], path: str) -> int:
     adapter = envs.get(v["env"])
     from jsim.core import construct
 
-    ws = construct(WrapSys, adapter, v["config"], bool(v.get("flag", False)), int(v.get("scan_len", 3)))
+    ws = construct(WrapSys, adapter, v["config"], bool(v.get("flag", False)), int(v.get("scan_len", 3)), wide=bool(v.get("wide", False)))
     ws.mode = prop.id
     if v.get("construction_only"):
         return 0
